@@ -14,7 +14,7 @@ import IronCalc.Book.SheetsProofs
   FORMULATEXT, INDIRECT) are outside (they read `SheetRes.name` / the text).
 -/
 namespace IronCalc.Book
-open IronCalc.Formula
+open IronCalc.RefTree
 
 /-- forget the displayed prefix, keep what each reference resolves to -/
 def resolutionOf : Node → Tree (Option Nat) NameRes := Tree.map (fun _ r => r.idx) (fun v n => (v, n))
